@@ -161,6 +161,28 @@ def bosonic (j : Json) : R Json := do
   | "reducedBosonic" => pure <| out (reducedBosonic n modes)
   | "backendState" => pure <| out (bosonicBackendState n modes)
   | "labels" => pure <| natList (bosonicBackendLabels modes)
+  | "fidelityArgs" | "purityArgs" | "wignerArgs" => do
+    -- components over all `n` modes (fidelity, purity) resp. the reduced one-mode components (wigner)
+    let comps ← getArr j "comps"
+    let cs ← comps.mapM fun cj => do
+      let w ← asRat (← cj.getObjVal? "w")
+      let mu ← getRatList cj "mu"
+      let cov ← getRatMat cj "cov"
+      pure (w, ({ mu := fun a => mu.getD a 0, cov := fun a b => (cov.getD a #[]).getD b 0 } : GData Rat))
+    let size := 2 * n
+    let jcomp (p : Rat × GData Rat) : Json := Json.mkObj ([("w", jrat p.1)] ++ jG size p.2)
+    if kind == "fidelityArgs" then
+      let are ← getRatList j "are"
+      let aim ← getRatList j "aim"
+      let sq ← asRat (← j.getObjVal? "sq")
+      let h2 ← asRat (← j.getObjVal? "h2")
+      pure <| jarr ((bosonicFidelityArgs sq h2 (fun a => are.getD a 0) (fun a => aim.getD a 0) cs).map jcomp)
+    else if kind == "purityArgs" then
+      pure <| jarr ((bosonicPurityArgs cs).map jcomp)
+    else
+      let x ← asRat (← j.getObjVal? "x")
+      let p ← asRat (← j.getObjVal? "p")
+      pure <| jarr ((bosonicWignerArgs x p cs).map fun t => jarr [jrat t.1, jrat t.2.1, jrat t.2.2])
   | "meanPhoton" | "quad" | "marginal" => do
     let comps ← getArr j "comps"
     let cs ← comps.mapM fun cj => do
@@ -205,12 +227,26 @@ def post (j : Json) : R Json := do
     pure <| natList (pats.map fun p => pnrCount samples p)
   | _ => throw s!"st.post: unknown kind {kind}"
 
+/-- Gaussian `dm()` / `reduced_dm(modes)` with scripted thewalrus outputs (`psi`: state vector of `len(modes)` modes, `T`: density
+matrix of `len(modes)` modes) -/
+def gaussDm (j : Json) : R Json := do
+  let D ← getNat j "D"
+  let n ← getNat j "n"
+  let modes := getNatListD j "modes"
+  let k := modes.length
+  let psi ← getGArr j "psi"
+  let T ← getGArr j "T"
+  match gaussReducedDm GInt.conj n modes (getBoolD j "pure" false) (tensOfArray D k psi) (tensOfArray D (2 * k) T) with
+  | .error e => pure (jErr e)
+  | .ok (k', t) => pure <| Json.mkObj [("k", jnat k'), ("t", jarr ((arrayOfTens D (2 * k') t).map jGInt))]
+
 def handler (op : String) (j : Json) : Option (R Json) :=
   match op with
   | "st.fock" => some (fock j)
   | "st.gauss" => some (gauss j)
   | "st.bosonic" => some (bosonic j)
   | "st.post" => some (post j)
+  | "st.gaussdm" => some (gaussDm j)
   | _ => none
 
 end SFV.Drv.States
